@@ -337,7 +337,7 @@ def run(chk):
     chk.bounds = {'#define value text': 'every ASCII string without newline, length <= %d' % N,
                   'constant expressions': 'each binary operator with arbitrary leaves in [-2^64, 2^64] (shift counts <= 100)',
                   'C parser (typeof on a compiled FFI)': 'every byte string of length <= %d (any bytes), output arrays of 1..8 opcodes, empty declaration context; '
-                                                         'str arguments of up to %d arbitrary BMP code points through _ffi_type' % (4 if quick else 5, 2 if quick else 3),
+                                                         'str arguments of up to %d arbitrary BMP code points through _ffi_type' % (4 if quick else 5, 3 if quick else 4),
                   'Constant.value text': 'every ASCII string of length <= %d that pycparser can lex as a constant token' % (4 if quick else 5),
                   'declared identifiers': 'Parser._declare for every declaration kind and every identifier of the listed lengths (up to 13/14 characters)',
                   'parse-error conversion': 'any reported line number >= 0, sources of 0..%d lines' % (3 if quick else 6)}
